@@ -45,6 +45,11 @@ pub struct C17Case {
     /// 0 flip a bool, 1 number -> 0, 2 number x 1.25)
     #[serde(default)]
     pub mutate: Vec<(u16, u8)>,
+    /// consist and set-speed simulations: before step `recompose.1` is taken the consist's
+    /// composition changes (1: last unit cut out with drain_loco_vec, 2: last unit removed through
+    /// the public field, 3: first unit added once more through set_loco_vec); 0 = never
+    #[serde(default)]
+    pub recompose: (u8, usize),
 }
 
 pub const KINDS: [&str; 32] = [
@@ -457,6 +462,28 @@ where
     }
 }
 
+/// the composition change of `C17Case::recompose`, applied before step `at` is taken
+fn recompose(con: &mut Consist, i: usize, how: (u8, usize)) {
+    if how.0 == 0 || i != how.1 {
+        return;
+    }
+    let n = con.loco_vec.len();
+    match how.0 {
+        1 if n >= 2 => {
+            let _ = con.drain_loco_vec(n - 1, n);
+        }
+        2 if n >= 2 => {
+            con.loco_vec.pop();
+        }
+        3 if n >= 1 => {
+            let mut v = con.loco_vec.clone();
+            v.push(v[0].clone());
+            con.set_loco_vec(v);
+        }
+        _ => {}
+    }
+}
+
 fn u19_loco(case: &C17Case, which: usize) -> anyhow::Result<Locomotive> {
     match which {
         2 => Ok(Locomotive::default_hybrid_electric_loco()),
@@ -528,7 +555,9 @@ impl C17 {
         };
         let special = g.int(0, 3) as u8;
         let mutate = (0..g.weighted(&[5, 3, 2])).map(|_| (g.int(0, 65535) as u16, g.weighted(&[3, 1, 1]) as u8)).collect();
-        C17Case { kind, fmt, state, k, total, units, pdct: g.int(0, 1) as u8, trace, train, corridor, special, mutate }
+        let pdct = g.int(0, 1) as u8;
+        let recompose = if g.bool(0.3) { (g.int(1, 3) as u8, g.usize(1, 25)) } else { (0, 0) };
+        C17Case { kind, fmt, state, k, total, units, pdct, trace, train, corridor, special, mutate, recompose }
     }
 
     fn check(case: &C17Case, cx: &mut Ctx) {
@@ -610,7 +639,8 @@ impl C17 {
                         simple!(make_con()?);
                     } else {
                         let scale = if case.state == 0 { 8.0e6 } else { total_rating * 0.8 };
-                        resume_check(&|| Ok(ConsistSimulation::new(make_con()?, power_trace(case, scale), Some(1))), |s: &mut ConsistSimulation| if s.i < s.power_trace.len() { s.step() } else { Err(anyhow::anyhow!("end of trace")) }, case.k, case.total, fmt, kind, cx);
+                        resume_check(&|| Ok(ConsistSimulation::new(make_con()?, power_trace(case, scale), Some(1))), |s: &mut ConsistSimulation| if s.i < s.power_trace.len() { recompose(&mut s.loco_con, s.i, case.recompose); s.step() } else { Err(anyhow::anyhow!("end of trace")) }, case.k, case.total, fmt, kind, cx);
+                        cx.label_if(case.recompose.0 > 0 && case.recompose.1 <= case.total, "consist_composition_changes_during_the_run");
                     }
                 }
                 9 => simple!(if case.state == 0 { PowerTrace::default() } else { power_trace(case, 1.0e6) }),
@@ -671,7 +701,7 @@ impl C17 {
                                         simple!(s.state);
                                     }
                                 }
-                                _ => resume_check(&make, |s: &mut SetSpeedTrainSim| if s.state.i < s.speed_trace.len() { s.step() } else { Err(anyhow::anyhow!("end of trace")) }, case.k, tc.trace.len().saturating_sub(1).min(case.total.max(5)), fmt, kind, cx),
+                                _ => resume_check(&make, |s: &mut SetSpeedTrainSim| if s.state.i < s.speed_trace.len() { recompose(&mut s.loco_con, s.state.i, case.recompose); s.step() } else { Err(anyhow::anyhow!("end of trace")) }, case.k, tc.trace.len().saturating_sub(1).min(case.total.max(5)), fmt, kind, cx),
                             }
                         }
                     }
